@@ -5,6 +5,9 @@
    again in the same format, followed by ` ## m.k m.k ...` = the (mode, arm)
    pairs that fired in this case (mode 21 = foreign content).
    The input line `#arms` is answered with `ARMS mode:number_of_arms ...`.
+   `TREE <log line>` (implementation's or model's) replays the sink operations of the log into the
+   abstract DOM (DomSpec.apply) and prints  <tree without handle numbers> | Q <quirks> | R <non-Continue results>.
+   HEADER flags may carry a 9th number: bit i set = deviation switch i OFF (WHATWG variant, TreeTypes.dev_on).
    NB: the extracted model defines a type called [string] (Coq strings); OCaml
    strings are [String.t] below. *)
 
@@ -105,6 +108,74 @@ let split_events (line : String.t) : String.t list =
 
 exception Stop of String.t
 
+(* ---------- replaying a log into the abstract DOM (DomSpec) ---------- *)
+let parse_op (ev : String.t) : sinkop option =
+  let toks = ref (words ev) in
+  let next () = match !toks with t :: r -> toks := r; t | [] -> failwith ("missing token in: " ^ ev) in
+  let num () = nat_of_int (int_of_string (next ())) in
+  let s () = unesc (next ()) in
+  let qn () = let p = opt_s (next ()) in let ns = s () in let l = s () in { q_prefix = p; q_ns = ns; q_local = l } in
+  let attrs () =
+    let k = int_of_string (next ()) in
+    let rec go i acc = if i = 0 then List.rev acc else
+        let q = qn () in let v = s () in go (i - 1) ({ d_name = q; d_value = v } :: acc) in
+    go k [] in
+  let child () = match next () with
+    | "n" -> Inl (num ())
+    | "t" -> Inr (s ())
+    | x -> failwith ("bad child kind " ^ x) in
+  match next () with
+  | "create_element" ->
+    let x = num () in let q = qn () in let f = next () in let a = attrs () in
+    Some (OpCreateElement (x, q, a, String.contains f 't', String.contains f 'm', String.contains f 'd'))
+  | "create_comment" -> let x = num () in Some (OpCreateComment (x, s ()))
+  | "append" -> let p = num () in Some (OpAppend (p, child ()))
+  | "append_before_sibling" -> let p = num () in Some (OpAppendBeforeSibling (p, child ()))
+  | "append_based_on_parent_node" -> let e = num () in let p = num () in Some (OpAppendBasedOnParent (e, p, child ()))
+  | "append_doctype_to_document" -> let a = s () in let b = s () in Some (OpAppendDoctype (a, b, s ()))
+  | "add_attrs_if_missing" -> let x = num () in Some (OpAddAttrsIfMissing (x, attrs ()))
+  | "remove_from_parent" -> Some (OpRemoveFromParent (num ()))
+  | "reparent_children" -> let a = num () in Some (OpReparentChildren (a, num ()))
+  | "get_template_contents" -> let a = num () in Some (OpGetTemplateContents (a, num ()))
+  | "set_quirks_mode" ->
+    Some (OpSetQuirks (n_of_int (match next () with "Quirks" -> 0 | "LimitedQuirks" -> 1 | _ -> 2)))
+  | "maybe_clone_an_option_into_selectedcontent" -> Some (OpCloneOption (num ()))
+  | _ -> None
+
+let tree_of_log (line : String.t) : String.t =
+  let body = match Str.bounded_split_delim (Str.regexp_string " ;; ") line 2 with [_; b] -> b | _ -> line in
+  let body = match Str.bounded_split_delim (Str.regexp_string " ## ") body 2 with a :: _ -> a | [] -> body in
+  let d = ref init in
+  let results = ref [] in
+  List.iter (fun ev ->
+      (match words ev with
+       | "res" :: r -> if r <> ["Continue"] then results := String.concat " " r :: !results
+       | "PANIC" :: _ | "FUEL" :: _ -> results := ev :: !results
+       | _ -> ());
+      match (try parse_op ev with Failure _ -> None) with
+      | Some op -> d := apply !d op
+      | None -> ()) (split_events body);
+  let nodes = Array.of_list (!d).d_nodes in
+  let b = Buffer.create 256 in
+  let rec pr i depth =
+    if depth > 20000 then failwith "tree too deep";
+    let nd = nodes.(i) in
+    (match nd.n_data with
+     | Document -> Buffer.add_string b "(doc"
+     | Doctype (n, p, s) -> Buffer.add_string b (Printf.sprintf "(doctype %s %s %s" (esc n) (esc p) (esc s))
+     | Text t -> Buffer.add_string b ("(text " ^ esc t)
+     | Comment t -> Buffer.add_string b ("(comment " ^ esc t)
+     | PI (t, x) -> Buffer.add_string b (Printf.sprintf "(pi %s %s" (esc t) (esc x))
+     | Element (q, a, tm, ip) ->
+       Buffer.add_string b (Printf.sprintf "(elem %s %s %s" (fmt_qname q) (if ip then "m" else "-") (fmt_attrs a));
+       (match tm with
+        | Some t -> Buffer.add_string b " tmpl "; pr (int_of_nat t) (depth + 1)
+        | None -> ()));
+    List.iter (fun c -> Buffer.add_char b ' '; pr (int_of_nat c) (depth + 1)) nd.n_kids;
+    Buffer.add_char b ')' in
+  pr 0 0;
+  Printf.sprintf "%s | Q %s | R %s" (Buffer.contents b) (quirks_name (!d).d_quirks) (String.concat "," (List.rev !results))
+
 let run_case (line : String.t) : String.t =
   let (header, body) =
     match Str.bounded_split_delim (Str.regexp_string " ;; ") line 2 with
@@ -117,7 +188,10 @@ let run_case (line : String.t) : String.t =
   let opts = { o_exact_errors = fl.(0) = 1; o_scripting = fl.(2) = 1; o_iframe_srcdoc = fl.(4) = 1;
                o_drop_doctype = fl.(3) = 1;
                o_quirks = n_of_int (match fl.(5) with 1 -> 1 | 2 -> 0 | _ -> 2);
-               o_allow_dsr = true; o_attach_ok = false } in
+               o_allow_dsr = true; o_attach_ok = false;
+               (* optional 9th flag: bit i set = deviation i switched OFF (WHATWG behaviour) *)
+               o_dev = (let mask = if Array.length fl > 8 then fl.(8) else 0 in
+                        List.init 16 (fun i -> (mask lsr i) land 1 = 0)) } in
   let st = ref (init_state opts) in
   let out = ref [] in
   let arms = Hashtbl.create 16 in
@@ -177,7 +251,9 @@ let run_case (line : String.t) : String.t =
 let () =
   iter_lines (fun line ->
     try
-      if String.trim line = "#arms" then
+      if String.length line > 5 && String.sub line 0 5 = "TREE " then
+        print_endline (tree_of_log (String.sub line 5 (String.length line - 5)))
+      else if String.trim line = "#arms" then
         print_endline ("ARMS " ^ String.concat " " (List.map (fun (m, k) -> Printf.sprintf "%d:%d" (int_of_nat m) (int_of_nat k)) arm_counts))
       else print_endline (run_case line)
     with Failure m | Invalid_argument m -> print_endline ("MODELERROR " ^ m)
